@@ -634,6 +634,19 @@ theorem all_pending_calls_released :
         (step (run (connectedSt .webrtc true 1) [.senderBlocks, .senderBlocks]) e)) = true := by
   decide +kernel
 
+set_option maxRecDepth 1000000 in
+/-- **ice_failure_after_grace_expiry_reaches_failed** (audit r3-M3 / 2.9) — the second half of the
+"recoverable" exemption, a two-event row: after ICE `Disconnected` and the grace expiry (the parked "cycling
+transport" state in which `wait_for_connected` keeps waiting), an ICE failure — the consent time-out — ends
+it: along **every** schedule of the implementation's own tasks every quiescent state is `Failed` with a reason,
+the channel closed, and `wait_for_connected` errors at once. (The driving loop must still be watching ICE for
+this: a loop that returned at the grace expiry leaves `Disconnected` for good — driven by `peerVanishThenIceFail`.) -/
+theorem ice_failure_after_grace_expiry_reaches_failed :
+    ([true, false].all fun app =>
+      certified (fun s => !quiescent s || (s.peer == .failed && s.reason.isSome && chansDone s && call s .waitForConnected == .errNow))
+        internalActs 40 (step (run (connectedSt .webrtc app 1) [.iceDisconnect, .drvIce, .drvGrace]) .iceFail)) = true := by
+  decide +kernel
+
 /-- While the driving loop is still alive the lenient terminal state is **not** final: after the ICE
 disconnect grace expired (`Disconnected` + `IceDisconnected`, SCTP closed) the loop is parked at its top and
 an ICE recovery makes it start DTLS again and report `Connected` — with the stale reason still set.
